@@ -173,7 +173,26 @@ def run_scenario(task):
         return graph.get(st, [])
 
     def parse(l):
-        obs = l.result
+        return parse_obs(l.result, False)
+
+    def real(seed):
+        """one run with the real random source: [(time, event key)] up to a horizon of a few expected events"""
+        import random
+        r0 = sum(x[1] for x in succ(st0)) * RATE_UNIT
+        T = tmin + (4.0 / r0 if r0 > 0 else 1.0)
+        random.seed(seed)
+        del log[:]
+        try:
+            sim = EoN.Gillespie_complex_contagion(G, rf, tc, gi, dict(IC), rs_all, tmin=tmin, tmax=T, parameters=(), return_full_data=True)
+            obs = {"hist": {u: (list(sim.node_history(u)[0]), list(sim.node_history(u)[1])) for u in nodes}, "trans": None, "trans_err": None}
+        except Exception as ex:
+            return {"error": ex}
+        ev, pr = parse_obs(obs, True)
+        if pr:
+            return {"error": RuntimeError("%s: %s" % (pr[0]["kind"], pr[0]["detail"]))}
+        return {"events": ev, "tmin": tmin, "tmax": T, "error": None}
+
+    def parse_obs(obs, with_times):
         try:
             ini = tuple(back[obs["hist"][u][1][0]] for u in nodes)
         except KeyError as ex:
@@ -182,15 +201,17 @@ def run_scenario(task):
             return [], [{"kind": "initial-state", "detail": "histories start in %r, requested %r" % (ini, st0)}]
         ch = observe.changes(obs, nodes)
         times = [c[0] for c in ch]
-        if times != [tmin + k + 1.0 for k in range(len(times))]:
+        if not with_times and times != [tmin + k + 1.0 for k in range(len(times))]:
             return [], [{"kind": "event-times", "detail": "event times %r under a unit-delay clock from tmin=%r" % (times, tmin)}]
         try:
+            if with_times:
+                return [(t, (u, back[new])) for (t, u, old, new) in ch], []
             return [(u, back[new]) for (t, u, old, new) in ch], []
         except KeyError as ex:
             return [], [{"kind": "unknown-status", "detail": "a history holds the status %r, which is not one of the user's labels" % (ex.args[0],)}]
 
     cls = scn["model"]
-    res = walk.walk(fn_full, parse, st0, succ, RATE_UNIT, horizon, max_exp=horizon + 2, max_leaves=40000, cls=cls)
+    res = walk.walk(fn_full, parse, st0, succ, RATE_UNIT, horizon, max_exp=horizon + 2, max_leaves=40000, cls=cls, real=real)
     problems = res["problems"]
     narr = 0
     statuses = scn["statuses"]
@@ -214,7 +235,7 @@ def run_scenario(task):
         if la.result != want:
             problems.append({"kind": "arrays", "cls": cls + ("|return_statuses-subset" if len(rs) < len(rs_all) else ""),
                              "detail": "returned %r, statuses imply %r (return_statuses=%r)" % (la.result, want, rs), "script": l.script})
-    return {"problems": problems, "leaves": res["leaves"], "events": res["events"], "nodes": res["nodes"], "arr": narr}
+    return {"problems": problems, "leaves": res["leaves"], "events": res["events"], "nodes": res["nodes"], "arr": narr, "settled": res.get("settled")}
 
 
 ABSORBING = ("threshold2", "SIR")      # every run of these models ends in a state where all rates are zero
